@@ -497,6 +497,7 @@ package exec
 //@ spec func depsUpTo(t *Task, last bigslice.Slice, p int, n int, cnt int, key string) bool = len(t.Deps) == cnt && forall(j, 0, cnt, depWired(t.Deps[j], slDep(last, j), p, n, key))
 //@ spec func depsSep(ts []*Task) bool = forall(p, 0, len(ts), forall(q, 0, len(ts), implies(p != q && ts[p].Deps.arr != 0, ts[p].Deps.arr != ts[q].Deps.arr)))
 //@ spec func combineKeyOf(c *compiler, last bigslice.Slice, op string) string = ite(!funcIsNil(slCombiner(last)) && c.machineCombiners, op, "")
+//@ spec func slCacheOf(s bigslice.Slice) slicecache.ShardCache = ite(hastype(slUnwrap(s), slicecache.Cacheable), cacheOf(slUnwrap(s)), slicecache.Empty)
 //@ spec func opCached(c *compiler, n TaskName, lo int, hi int) bool = exists(k, lo, hi, c.inv.Env.Cached[taskOp{n, k}])
 
 // The memo is keyed by the slice itself (not what it wraps) and by the partition count as configured (0 = not a
@@ -521,6 +522,7 @@ package exec
 //@   ensures  reused-result: implies(err == nil && isResultSlice(slice) && part.numPartition == 0 && !(memoable(part) && old(has(c.memo, memoKey{slice, part.numPartition}))), sameTasks(tasks, unbox(slUnwrap(slice), *Result).tasks))
 //@   ensures  pipelined: implies(err == nil && !isResultSlice(slice) && !(memoable(part) && old(has(c.memo, memoKey{slice, part.numPartition}))), forall(p, 0, len(tasks), len(tasks[p].Slices) > 0 && tasks[p].Slices[0] == slice && forall(i, 0, len(tasks[p].Slices) - 1, pipeLink(tasks[p].Slices[i], tasks[p].Slices[i+1]))))
 //@   ensures  wired: implies(err == nil && !isResultSlice(slice) && !(memoable(part) && old(has(c.memo, memoKey{slice, part.numPartition}))), forall(p, 0, len(tasks), let(last, tasks[p].Slices[len(tasks[p].Slices)-1], ite(opCached(c, tasks[p].Name, 0, len(tasks[p].Slices)), len(tasks[p].Deps) == 0, depsUpTo(tasks[p], last, p, len(tasks), slNumDep(last), combineKeyOf(c, last, tasks[p].Name.Op))))))
+//@   ensures  marks: implies(err == nil && !isResultSlice(slice) && !(memoable(part) && old(has(c.memo, memoKey{slice, part.numPartition}))), forall(p, 0, len(tasks), forall(k, 0, len(tasks[p].Slices), c.inv.Env.Cached[taskOp{tasks[p].Name, k}] == (at_loop(8, c.inv.Env.Cached[taskOp{tasks[p].Name, k}]) || (c.inv.Env.Writable && shardCached(slCacheOf(tasks[p].Slices[k]), p))))))
 //@   modifies c.memo[:], c.namer[:], c.inv.Env.Cached[:]
 //@   loop 2 invariant len(tasks) == len(result.tasks) && fresh(tasks) && memoOK(c)
 //@   loop 2 invariant result-shuffle-partitioned: forall(j, 0, range_idx, ownTask(tasks[j], slice, part, shuffleOpName, c.inv.Index, j, len(tasks))) && forall(j, range_idx, len(tasks), tasks[j] == nil)
@@ -536,7 +538,18 @@ package exec
 //@   loop 7 invariant shuffle-wired: forall(p, 0, range_idx, depsUpTo(tasks[p], lastSlice, p, len(tasks), i + 1, combineKeyOf(c, lastSlice, opName))) && forall(p, range_idx, len(tasks), depsUpTo(tasks[p], lastSlice, p, len(tasks), i, combineKeyOf(c, lastSlice, opName)))
 //@   loop 8 invariant -1 <= opIdx && opIdx < len(slices)
 //@   loop 8 invariant cached-drop: forall(p, 0, len(tasks), ite(opCached(c, tasks[p].Name, opIdx + 1, len(slices)), len(tasks[p].Deps) == 0, depsUpTo(tasks[p], lastSlice, p, len(tasks), slNumDep(lastSlice), combineKeyOf(c, lastSlice, opName))))
+//@   loop 8 invariant marks: forall(p, 0, len(tasks), forall(k, 0, len(slices), c.inv.Env.Cached[taskOp{tasks[p].Name, k}] == (at_loop(8, c.inv.Env.Cached[taskOp{tasks[p].Name, k}]) || (k > opIdx && c.inv.Env.Writable && shardCached(slCacheOf(slices[k]), p)))))
+//@   loop 9 invariant marks: forall(p, 0, len(tasks), forall(k, 0, len(slices), c.inv.Env.Cached[taskOp{tasks[p].Name, k}] == (at_loop(8, c.inv.Env.Cached[taskOp{tasks[p].Name, k}]) || ((k > opIdx || (k == opIdx && p < range_idx)) && c.inv.Env.Writable && shardCached(slCacheOf(slices[k]), p)))))
 //@   loop 9 invariant forall(p, 0, len(tasks), opCached(c, tasks[p].Name, opIdx + 1, len(slices)) == at_loop(9, opCached(c, tasks[p].Name, opIdx + 1, len(slices))))
 //@   loop 10 invariant cached-drop: forall(p, 0, range_idx, ite(opCached(c, tasks[p].Name, opIdx, len(slices)), len(tasks[p].Deps) == 0, depsUpTo(tasks[p], lastSlice, p, len(tasks), slNumDep(lastSlice), combineKeyOf(c, lastSlice, opName)))) && forall(p, range_idx, len(tasks), ite(opCached(c, tasks[p].Name, opIdx + 1, len(slices)), len(tasks[p].Deps) == 0, depsUpTo(tasks[p], lastSlice, p, len(tasks), slNumDep(lastSlice), combineKeyOf(c, lastSlice, opName))))
 //@   loop 11 invariant forall(j, 0, len(tasks), tasks[j] == nil || fresh(tasks[j])) && forall(j, 0, range_idx, tasks[j].Slices.arr == slices.arr && tasks[j].Slices.off == slices.off && len(tasks[j].Slices) == len(slices))
 //@   loop 12 invariant forall(j, 0, len(tasks), tasks[j] == nil || fresh(tasks[j])) && forall(j, 0, range_idx, sameTasks(tasks[j].Group, tasks))
+
+// One root task per result shard, each writing a single partition (roots are never direct shuffle dependencies).
+//@ func exec.compile (inv, slice, machineCombiners) (tasks, err)
+//@   requires slice != nil && inv.Env.Cached != nil
+//@   may_panic
+//@   ensures  tasks-or-error: implies(err != nil, len(tasks) == 0)
+//@   ensures  one-root-per-shard: implies(err == nil && !isResultSlice(slice), len(tasks) == slNumShard(slice) && forall(i, 0, len(tasks), taskShape(tasks[i], slice, 0)) && namesOK(tasks))
+//@   ensures  reused-result: implies(err == nil && isResultSlice(slice), sameTasks(tasks, unbox(slUnwrap(slice), *Result).tasks))
+//@   modifies inv.Env.Cached[:]
